@@ -109,8 +109,15 @@ class NonDominatedPriority(MOPriority):
         self.max_num_samples = max_num_samples
 
     def priority_unsafe(self, objectives: np.array) -> np.array:
-        return np.array(
+        # ``nondominated_sort`` returns item indices in order of priority. The
+        # priority of an item is its position in this order (items beyond
+        # ``max_num_samples`` share the lowest priority)
+        order = np.array(
             nondominated_sort(
                 X=objectives, dim=self.dim, max_items=self.max_num_samples
-            )
+            ),
+            dtype=int,
         )
+        priorities = np.full(objectives.shape[0], len(order))
+        priorities[order] = np.arange(len(order))
+        return priorities
